@@ -11,7 +11,7 @@ NS = {
 }
 
 # ECMA-376 Part 1, 17.2 (body), 17.4 (tables), 17.3 (paragraphs, runs), 17.5.2 (structured document tags at block, row,
-# cell and run level), 17.13.5 (revisions), Part 3 (markup compatibility).
+# cell and run level), 17.13.5 (revisions: w:ins / w:moveTo are current text, w:del / w:moveFrom removed text), Part 3 (markup compatibility).
 BODY = """
 body            = w:body -> p tbl sdt_b cx_b sectPr
 sectPr          = w:sectPr
@@ -30,10 +30,14 @@ sdt_cell        = w:sdt -> sdtPr sdtContent_cell
 sdtContent_cell = w:sdtContent -> tc
 tc              = w:tc -> tcPr p tbl sdt_b
 tcPr            = w:tcPr
-p               = w:p -> pPr r hyperlink ins del sdt_r smartTag fldSimple oMath oMathPara
+p               = w:p -> pPr r hyperlink ins del moveTo moveFrom sdt_r smartTag fldSimple oMath oMathPara
 pPr             = w:pPr
 hyperlink       = w:hyperlink -> r
 ins             = w:ins -> r
+moveTo          = w:moveTo -> r
+moveFrom        = w:moveFrom -> r_mf
+r_mf            = w:r -> rPr t_mf
+t_mf            = w:t ; text=excl
 smartTag        = w:smartTag -> r
 fldSimple       = w:fldSimple -> r
 sdt_r           = w:sdt -> sdtPr sdtContent_r
